@@ -3,14 +3,21 @@
    against HashModel.v's string_loop / file_loop / fb_new / fb_read -- for ANY hasher class that
    satisfies the contract [class_spec] of RefineHashDefs.v.
 
-   Main results (F = the per-method fuel of the class):
-   - getStringHash_refines : Hashmaster::getStringHash/3, fuel >= F + |msg|/64 + 5
-   - fb_ctor_refines       : filebuffer64::filebuffer64/3 establishes fb_rep (fb_new ..), fuel >= 12
+   Main results (F = the per-method fuel of the class; contract VERSION 2 of RefineHashDefs.v):
+   - getStringHash_refines : Hashmaster::getStringHash/3, fuel >= F + |msg|/64 + 5; the message and output objects
+                             are [passable] (static, or heap objects older than the call)
+   - fb_ctor_refines       : filebuffer64::filebuffer64/3 establishes fb_rep fpn (fb_new ..), fuel >= 12; the extra block
+                             may live in any object outside "buf." (so also in a heap object)
    - fb_read_refines       : filebuffer64::read_buffer64/2 copies fst (fb_read b) to the destination, returns its
                              length and re-establishes fb_rep / fb_wf for snd (fb_read b), fuel >= 16
    - getFileHash_refines   : Hashmaster::getFileHash/3 follows file_loop; fuel >= F + n + 23 where n is the
                              model's own fuel (|stream|/64 + 3 in getFileHash; that this is enough for the
-                             model is HashProofs.getFileHash_string)
+                             model is HashProofs.getFileHash_string); output object static or an old heap object
+   The stream the buffer reads is the Section variable fpn (member pointer "buf.fp" |-> VPtr fpn 0).
+   Heap: every lemma concludes that heap objects older than the call are unchanged -- [heap_kept s s'], or
+   [heap_kept_but o s s'] when the object o written on purpose may itself be a heap object
+   (heap_kept_but_kept / not_owned_not_heap turn it into heap_kept when o is not a heap object).
+   heap_kept_trans, passable_mono, old_heap_mono: composition across calls (fresh only grows).
    With the fuel |input|/64 + 2000 of SrcRun's entry points, F + 26 <= 2000 suffices (RefineHash.v). *)
 From Coq Require Import ZArith NArith List String Bool Lia PeanoNat.
 From Wencry Require Import Bytes HashModel HashProofs MiniC MiniCRun MiniCLemmas SrcRun RefineHashDefs.
@@ -123,6 +130,51 @@ Qed.
 Lemma bytes_at_room : forall m o off bs, bytes_at m o off bs -> room m o off (List.length bs).
 Proof. intros m o off bs (ob & Hget & Hty & Hoff & _ & Hlen). exists ob. auto. Qed.
 
+(* ---- contract v2: heap objects older than a call may be passed to it and are kept by it ---- *)
+Definition passable_at (fr : nat) (k : string) : Prop :=
+  hash_owned k = false \/ exists n, (n < fr)%nat /\ k = heap_name n.   (* passable s k = passable_at (fresh s) k *)
+(* what a hasher method call leaves alone, seen from a state whose heap counter is fr *)
+Definition kept (fr : nat) (m m' : memory) : Prop := forall k, passable_at fr k -> mget m' k = mget m k.
+(* old heap objects are unchanged, except possibly the object o written on purpose *)
+Definition heap_kept_but (o : string) (s s' : state) : Prop :=
+  forall n, (n < fresh s)%nat -> heap_name n <> o -> mget (mem s') (heap_name n) = mget (mem s) (heap_name n).
+
+Lemma passable_at_mono : forall fr fr' k, passable_at fr k -> (fr <= fr')%nat -> passable_at fr' k.
+Proof. intros fr fr' k [Hk|(n & Hn & ->)] Hle; [left; exact Hk|right; exists n; split; [lia|reflexivity]]. Qed.
+Lemma passable_mono : forall s s' k, passable s k -> (fresh s <= fresh s')%nat -> passable s' k.
+Proof. intros s s' k Hk Hle. exact (passable_at_mono (fresh s) (fresh s') k Hk Hle). Qed.
+Lemma old_heap_mono : forall s s' k, old_heap s k -> (fresh s <= fresh s')%nat -> old_heap s' k.
+Proof. intros s s' k (n & Hn & ->) Hle. exists n. split; [lia|reflexivity]. Qed.
+Lemma heap_kept_refl : forall s, heap_kept s s.
+Proof. intros s n _. reflexivity. Qed.
+Lemma heap_kept_trans : forall s1 s2 s3, heap_kept s1 s2 -> heap_kept s2 s3 -> (fresh s1 <= fresh s2)%nat -> heap_kept s1 s3.
+Proof. intros s1 s2 s3 H12 H23 Hle n Hn. rewrite (H23 n ltac:(lia)). apply H12, Hn. Qed.
+
+Lemma hash_owned_heap : forall n, hash_owned (heap_name n) = true.
+Proof. intro n. unfold heap_name. generalize (nat_string n). intro x. unfold hash_owned, is_prefix. cbn. destruct x; reflexivity. Qed.
+Lemma not_owned_not_heap : forall o n, hash_owned o = false -> heap_name n <> o.
+Proof. intros o n Ho <-. rewrite hash_owned_heap in Ho. discriminate. Qed.
+Lemma heap_kept_but_kept : forall o s s', (forall n, heap_name n <> o) -> heap_kept_but o s s' -> heap_kept s s'.
+Proof. intros o s s' Ho Hk n Hn. apply Hk; [exact Hn|apply Ho]. Qed.
+
+Lemma kept_intro : forall fr m m', frame hash_owned m m' ->
+  (forall n, (n < fr)%nat -> mget m' (heap_name n) = mget m (heap_name n)) -> kept fr m m'.
+Proof. intros fr m m' Hf Hh k [Hk|(n & Hn & ->)]; [apply Hf, Hk|apply Hh, Hn]. Qed.
+Lemma kept_frame : forall fr m m', kept fr m m' -> frame hash_owned m m'.
+Proof. intros fr m m' Hk k Hno. apply Hk. left. exact Hno. Qed.
+Lemma kept_heap : forall fr m m' n, kept fr m m' -> (n < fr)%nat -> mget m' (heap_name n) = mget m (heap_name n).
+Proof. intros fr m m' n Hk Hn. apply Hk. right. exists n. auto. Qed.
+Lemma kept_refl : forall fr m, kept fr m m.
+Proof. intros fr m k _. reflexivity. Qed.
+Lemma kept_trans : forall fr fr' m1 m2 m3, kept fr m1 m2 -> kept fr' m2 m3 -> (fr <= fr')%nat -> kept fr m1 m3.
+Proof.
+  intros fr fr' m1 m2 m3 H12 H23 Hle k Hk. rewrite (H23 k (passable_at_mono _ _ _ Hk Hle)). apply H12, Hk.
+Qed.
+Lemma bytes_at_kept : forall fr m m' o off bs, kept fr m m' -> passable_at fr o -> bytes_at m o off bs -> bytes_at m' o off bs.
+Proof.
+  intros fr m m' o off bs Hk Ho (ob & Hget & Hrest). exists ob. split; [|exact Hrest]. rewrite (Hk o Ho). exact Hget.
+Qed.
+
 Lemma frame_refl : forall owned m, frame owned m m.
 Proof. intros owned m k _. reflexivity. Qed.
 Lemma frame_trans : forall owned m1 m2 m3, frame owned m1 m2 -> frame owned m2 m3 -> frame owned m1 m3.
@@ -205,12 +257,12 @@ Qed.
 (* ---- the four virtual method calls, as statements of a Hashmaster method (this = None, prefix "") ---- *)
 Lemma vcall_reset : forall fuel s st, (F <= fuel)%nat -> pre s = "" -> hok st (mem s) ->
   exists m' fr', exec P vt (S fuel) (SCallVirt None "reset/0" None []) s = Ok (Normal, upd s m' fr') /\
-    hok (reset a) m' /\ frame hash_owned (mem s) m' /\ (fresh s <= fr')%nat.
+    hok (reset a) m' /\ kept (fresh s) (mem s) m' /\ (fresh s <= fr')%nat.
 Proof.
   intros fuel s st Hf Hp Hok.
-  destruct (cs_reset _ _ _ _ _ _ H s st fuel Hf Hp Hok) as (s' & Hc & Hok' & Hfr & Hio).
+  destruct (cs_reset _ _ _ _ _ _ H s st fuel Hf Hp Hok) as (s' & Hc & Hok' & Hfr & Hhk & Hio).
   apply same_io_upd in Hio. destruct Hio as [Es Hfresh].
-  exists (mem s'), (fresh s'). rewrite <- Es. split; [|auto].
+  exists (mem s'), (fresh s'). rewrite <- Es. split; [|split; [exact Hok'|split; [apply kept_intro; assumption|exact Hfresh]]].
   eapply exec_callvirt with (vs := []) (pfx := "") (cls := cls) (rv := None) (s' := s').
   - reflexivity.
   - cbn [this_prefix]. rewrite Hp. reflexivity.
@@ -221,14 +273,14 @@ Qed.
 
 Lemma vcall_block : forall fuel s st e o off blk, (F <= fuel)%nat -> pre s = "" -> hok st (mem s) ->
   eval s e = Ok (VPtr o off) ->
-  hash_owned o = false -> bytes_at (mem s) o off blk -> List.length blk = 64%nat -> bytesb blk = true ->
+  passable s o -> bytes_at (mem s) o off blk -> List.length blk = 64%nat -> bytesb blk = true ->
   exists m' fr', exec P vt (S fuel) (SCallVirt None "getHash/1" None [e]) s = Ok (Normal, upd s m' fr') /\
-    hok (getHash_block a st blk) m' /\ frame hash_owned (mem s) m' /\ (fresh s <= fr')%nat.
+    hok (getHash_block a st blk) m' /\ kept (fresh s) (mem s) m' /\ (fresh s <= fr')%nat.
 Proof.
   intros fuel s st e o off blk Hf Hp Hok He Ho Hb Hl Hby.
-  destruct (cs_block _ _ _ _ _ _ H s st fuel o off blk Hf Hp Hok Ho Hb Hl Hby) as (s' & Hc & Hok' & Hfr & Hio).
+  destruct (cs_block _ _ _ _ _ _ H s st fuel o off blk Hf Hp Hok Ho Hb Hl Hby) as (s' & Hc & Hok' & Hfr & Hhk & Hio).
   apply same_io_upd in Hio. destruct Hio as [Es Hfresh].
-  exists (mem s'), (fresh s'). rewrite <- Es. split; [|auto].
+  exists (mem s'), (fresh s'). rewrite <- Es. split; [|split; [exact Hok'|split; [apply kept_intro; assumption|exact Hfresh]]].
   eapply exec_callvirt with (vs := [VPtr o off]) (pfx := "") (cls := cls) (rv := None) (s' := s').
   - cbn [eval_list]. rewrite He. reflexivity.
   - cbn [this_prefix]. rewrite Hp. reflexivity.
@@ -239,14 +291,14 @@ Qed.
 
 Lemma vcall_final : forall fuel s st e1 e2 o off inp, (F <= fuel)%nat -> pre s = "" -> hok st (mem s) ->
   eval s e1 = Ok (VPtr o off) -> eval s e2 = Ok (VInt (Z.of_nat (List.length inp))) ->
-  hash_owned o = false -> bytes_at (mem s) o off inp -> (List.length inp < 64)%nat -> bytesb inp = true ->
+  passable s o -> bytes_at (mem s) o off inp -> (List.length inp < 64)%nat -> bytesb inp = true ->
   exists m' fr', exec P vt (S fuel) (SCallVirt None "getHash/2" None [e1; e2]) s = Ok (Normal, upd s m' fr') /\
-    hok (getHash_final a st inp) m' /\ frame hash_owned (mem s) m' /\ (fresh s <= fr')%nat.
+    hok (getHash_final a st inp) m' /\ kept (fresh s) (mem s) m' /\ (fresh s <= fr')%nat.
 Proof.
   intros fuel s st e1 e2 o off inp Hf Hp Hok He1 He2 Ho Hb Hl Hby.
-  destruct (cs_final _ _ _ _ _ _ H s st fuel o off inp Hf Hp Hok Ho Hb Hl Hby) as (s' & Hc & Hok' & Hfr & Hio).
+  destruct (cs_final _ _ _ _ _ _ H s st fuel o off inp Hf Hp Hok Ho Hb Hl Hby) as (s' & Hc & Hok' & Hfr & Hhk & Hio).
   apply same_io_upd in Hio. destruct Hio as [Es Hfresh].
-  exists (mem s'), (fresh s'). rewrite <- Es. split; [|auto].
+  exists (mem s'), (fresh s'). rewrite <- Es. split; [|split; [exact Hok'|split; [apply kept_intro; assumption|exact Hfresh]]].
   eapply exec_callvirt with (vs := [VPtr o off; VInt (Z.of_nat (List.length inp))]) (pfx := "") (cls := cls) (rv := None) (s' := s').
   - cbn [eval_list]. rewrite He1, He2. reflexivity.
   - cbn [this_prefix]. rewrite Hp. reflexivity.
@@ -263,7 +315,7 @@ Definition out_kept (m m' : memory) (o : string) (off : Z) (n : nat) : Prop :=
 
 Lemma vcall_getres : forall fuel s st e o off old, (F <= fuel)%nat -> pre s = "" -> hok st (mem s) ->
   eval s e = Ok (VPtr o off) ->
-  hash_owned o = false -> bytes_at (mem s) o off old -> List.length old = ha_hlen a ->
+  passable s o -> bytes_at (mem s) o off old -> List.length old = ha_hlen a ->
   exists m' fr', exec P vt (S fuel) (SCallVirt None "getres/1" None [e]) s = Ok (Normal, upd s m' fr') /\
     bytes_at m' o off (ha_out a (hs_h st)) /\ hok st m' /\
     (forall k, k <> o -> mget m' k = mget (mem s) k) /\ out_kept (mem s) m' o off (ha_hlen a) /\ (fresh s <= fr')%nat.
@@ -309,16 +361,18 @@ Qed.
 
 Lemma getStringHash_refines : forall s st0 fuel o off msg oo ooff old,
   (F + List.length msg / 64 + 5 <= fuel)%nat -> pre s = "" -> hok st0 (mem s) ->
-  hash_owned o = false -> bytes_at (mem s) o off msg -> bytesb msg = true -> Z.of_nat (List.length msg) < 2 ^ 32 ->
-  hash_owned oo = false -> bytes_at (mem s) oo ooff old -> List.length old = ha_hlen a ->
+  passable s o -> bytes_at (mem s) o off msg -> bytesb msg = true -> Z.of_nat (List.length msg) < 2 ^ 32 ->
+  passable s oo -> bytes_at (mem s) oo ooff old -> List.length old = ha_hlen a ->
   exists s' stf,
     call P vt fuel "Hashmaster::getStringHash/3" "" [VPtr o off; VInt (Z.of_nat (List.length msg)); VPtr oo ooff] s = Ok (None, s') /\
     ha_out a (hs_h stf) = getStringHash a msg /\ hok stf (mem s') /\
     bytes_at (mem s') oo ooff (getStringHash a msg) /\
     (forall k, hash_owned k = false -> k <> oo -> mget (mem s') k = mget (mem s) k) /\
+    heap_kept_but oo s s' /\
     out_kept (mem s) (mem s') oo ooff (ha_hlen a) /\ same_io s s'.
 Proof.
   intros s st0 fuel o off msg oo ooff old Hfuel Hpre Hok0 Ho Hmsg Hbytes Hlen Hoo Hout Hold.
+  change (passable_at (fresh s) o) in Ho. change (passable_at (fresh s) oo) in Hoo.
   remember (List.length msg / 64)%nat as n eqn:Hn.
   set (len := Z.of_nat (List.length msg)) in *.
   pose proof (div64_bounds (List.length msg)) as [D _]. rewrite <- Hn in D.
@@ -339,7 +393,7 @@ Proof.
   (* the loop *)
   rewrite exec_seq.
   pose (Inv := fun (k : nat) (s' : state) => exists m fr, s' = st_at m fr (len - 64 * Z.of_nat k) /\
-      hok (blocks_state a (reset a) msg k) m /\ frame hash_owned (mem s) m /\ (fresh s <= fr)%nat).
+      hok (blocks_state a (reset a) msg k) m /\ kept (fresh s) (mem s) m /\ (fresh s <= fr)%nat).
   destruct (loop_inv P vt e_scond (SCallVirt None "getHash/1" None [e_sptr]) (SSet "nnow" e_sstep) Inv n (S F)) with (k := 0%nat) (s := st_at m1 fr1 len)
     as (sL & EL & (m2 & fr2 & -> & Hok2 & Hf2 & Hfr2)).
   { (* one iteration *)
@@ -352,8 +406,8 @@ Proof.
                 ltac:(lia) eq_refl Hokk) as (m' & fr' & Eb & Hok' & Hf' & Hfr').
     - rewrite (eval_sptr (st_at m fr nn) o off len oo ooff nn eq_refl). do 3 f_equal.
       unfold nn, len. rewrite Z.mod_small by lia. lia.
-    - exact Ho.
-    - apply bytes_at_sub; [|lia]. apply (bytes_at_frame hash_owned (mem s)); assumption.
+    - exact (passable_at_mono _ _ _ Ho Hfrk).
+    - apply bytes_at_sub; [|lia]. apply (bytes_at_kept (fresh s) (mem s)); assumption.
     - rewrite firstn_length, skipn_length. lia.
     - apply bytesb_firstn, bytesb_skipn, Hbytes.
     - exists (upd (st_at m fr nn) m' fr'), (st_at m' fr' (len - 64 * Z.of_nat (S k))). split; [exact Eb|]. split.
@@ -361,8 +415,8 @@ Proof.
         rewrite (eval_sstep (st_at m' fr' nn) o off len oo ooff nn eq_refl). cbn [bind].
         replace ((nn - 64) mod 2 ^ 32) with (len - 64 * Z.of_nat (S k)) by (unfold nn, len; rewrite Z.mod_small; lia).
         reflexivity.
-      + exists m', fr'. split; [reflexivity|]. split; [exact Hok'|]. split; [|cbn [fresh st_at] in Hfr'; lia].
-        eapply frame_trans; [exact Hfk|exact Hf']. }
+      + exists m', fr'. split; [reflexivity|]. split; [exact Hok'|]. cbn [fresh mem st_at] in Hfr', Hf'. split; [|lia].
+        eapply kept_trans; [exact Hfk|exact Hf'|exact Hfrk]. }
   { (* exit *)
     intros sk (m & fr & -> & _).
     rewrite (eval_scond (st_at m fr (len - 64 * Z.of_nat n)) o off len oo ooff (len - 64 * Z.of_nat n) eq_refl).
@@ -380,8 +434,8 @@ Proof.
   { rewrite (eval_sptr (st_at m2 fr2 nn) o off len oo ooff nn eq_refl). do 3 f_equal.
     unfold nn, len. rewrite Z.mod_small by lia. lia. }
   { rewrite skipn_length. cbn [eval st_at loc sloc lget]. cbn. do 3 f_equal. unfold nn, len. lia. }
-  { exact Ho. }
-  { apply bytes_at_skipn; [|lia]. apply (bytes_at_frame hash_owned (mem s)); assumption. }
+  { exact (passable_at_mono _ _ _ Ho Hfr2). }
+  { apply bytes_at_skipn; [|lia]. apply (bytes_at_kept (fresh s) (mem s)); assumption. }
   { rewrite skipn_length. lia. }
   { apply bytesb_skipn, Hbytes. }
   change (SCallVirt None "getHash/2" None
@@ -391,18 +445,21 @@ Proof.
   change (upd (st_at m2 fr2 nn) m3 fr3) with (st_at m3 fr3 nn).
   (* getres *)
   set (stf := getHash_final a stn (skipn (64 * n) msg)) in *.
-  assert (Hf03 : frame hash_owned (mem s) m3) by (eapply frame_trans; [exact Hf2|exact Hf3]).
-  destruct (vcall_getres fuel (st_at m3 fr3 nn) stf (EVar "hashres") oo ooff old ltac:(lia) eq_refl Hok3 eq_refl Hoo)
+  cbn [fresh mem st_at] in Hfr3, Hf3.
+  assert (Hf03 : kept (fresh s) (mem s) m3) by (eapply kept_trans; [exact Hf2|exact Hf3|exact Hfr2]).
+  destruct (vcall_getres fuel (st_at m3 fr3 nn) stf (EVar "hashres") oo ooff old ltac:(lia) eq_refl Hok3 eq_refl)
     as (m4 & fr4 & E4 & Hby4 & Hok4 & Hoth4 & Hkept4 & Hfr4).
-  { apply (bytes_at_frame hash_owned (mem s)); assumption. }
+  { apply (passable_at_mono _ _ _ Hoo). cbn [fresh st_at]. lia. }
+  { apply (bytes_at_kept (fresh s) (mem s)); assumption. }
   { exact Hold. }
   rewrite E4. cbn [bind upd mem loc pre files ptrs fresh st_at].
   assert (Hd : ha_out a (hs_h stf) = getStringHash a msg)
     by (unfold stf, stn; rewrite Hn; symmetry; apply getStringHash_blocks).
   eexists. exists stf. split; [reflexivity|]. cbn [mem].
   split; [exact Hd|]. split; [exact Hok4|]. split; [rewrite <- Hd; exact Hby4|].
-  split; [|split].
-  - intros k Hk Hne. rewrite (Hoth4 k Hne). apply Hf03, Hk.
+  split; [|split; [|split]].
+  - intros k Hk Hne. rewrite (Hoth4 k Hne). apply Hf03. left. exact Hk.
+  - intros k Hk Hne. cbn [mem]. rewrite (Hoth4 _ Hne). apply (kept_heap _ _ _ _ Hf03 Hk).
   - intros ob ob' Hg Hg'. apply Hkept4; [|exact Hg']. cbn [mem st_at]. rewrite (Hf03 oo Hoo). exact Hg.
   - unfold same_io. cbn [loc pre files ptrs fresh]. repeat split; try reflexivity.
     cbn [fresh st_at] in *. lia.
@@ -530,13 +587,13 @@ Record fb_mem (hbuf : nat) (b : fbuf) (m : memory) : Prop := {
   fm_now : mget m "buf.now" = Some (cell1 U32 (Z.of_nat (fb_now b)));
   fm_tail : mget m "buf.tail" = Some (cell1 U8 (Z.of_nat (fb_tail b))) }.
 
-(* the stream "fp" is positioned at the model's unread rest; the member fp points to it *)
-Definition fb_io (b : fbuf) (fs : list (string * cfile)) (ps : list (string * value)) : Prop :=
-  lget ps "buf.fp" = Some (VPtr "fp" 0) /\
-  exists f, lget fs "fp" = Some f /\ skipn (cf_pos f) (cf_data f) = map Z.of_N (fb_rest b).
+(* the stream fpn is positioned at the model's unread rest; the member fp points to it *)
+Definition fb_io (fpn : string) (b : fbuf) (fs : list (string * cfile)) (ps : list (string * value)) : Prop :=
+  lget ps "buf.fp" = Some (VPtr fpn 0) /\
+  exists f, lget fs fpn = Some f /\ skipn (cf_pos f) (cf_data f) = map Z.of_N (fb_rest b).
 
-Definition fb_rep (hbuf : nat) (b : fbuf) (s : state) : Prop :=
-  fb_mem hbuf b (mem s) /\ fb_io b (files s) (ptrs s).
+Definition fb_rep (fpn : string) (hbuf : nat) (b : fbuf) (s : state) : Prop :=
+  fb_mem hbuf b (mem s) /\ fb_io fpn b (files s) (ptrs s).
 
 (* the objects exist with the declared shapes (before the constructor ran) *)
 Record fb_shape (hbuf : nat) (m : memory) : Prop := {
@@ -579,6 +636,16 @@ Proof. intro x. unfold is_prefix. cbn. destruct x; reflexivity. Qed.
 Lemma not_buf : forall k x, is_prefix "buf." k = false -> k <> ("buf." ++ x)%string.
 Proof. intros k x Hk ->. rewrite buf_prefix in Hk. discriminate. Qed.
 
+Lemma buf_not_heap : forall n, is_prefix "buf." (heap_name n) = false.
+Proof. intro n. unfold heap_name. generalize (nat_string n). intro x. reflexivity. Qed.
+(* the buffer methods leave the heap alone (except the destination, if that is a heap object) *)
+Lemma frame_buf_heap : forall s s', frame (is_prefix "buf.") (mem s) (mem s') -> heap_kept s s'.
+Proof. intros s s' Hf n _. apply Hf, buf_not_heap. Qed.
+Lemma frame_fb_heap : forall o s s', frame (fb_owned o) (mem s) (mem s') -> heap_kept_but o s s'.
+Proof.
+  intros o s s' Hf n _ Hne. apply Hf. unfold fb_owned. rewrite buf_not_heap. cbn [orb]. apply String.eqb_neq. exact Hne.
+Qed.
+
 Lemma of_nat_div64 : forall n, Z.of_nat (n / 64) = Z.of_nat n / 64.
 Proof. intro n. apply (Nat2Z.inj_div n 64). Qed.
 Lemma of_nat_mod64 : forall n, Z.of_nat (n mod 64) = Z.of_nat n mod 64.
@@ -592,6 +659,7 @@ Proof. intro z. rewrite Z.shiftl_mul_pow2 by lia. reflexivity. Qed.
 
 Section FileBuffer.
 Variable vt : list (string * string).
+Variable fpn : string.                      (* name of the stream the buffer reads *)
 Variable hbuf : nat.
 Hypothesis Hh1 : (1 <= hbuf)%nat.
 Hypothesis Hh2 : Z.of_nat (64 * hbuf) < 2 ^ 32.
@@ -658,11 +726,11 @@ Definition S_fill (efp : expr) (last : stmt) : stmt :=
   (SSeq (SStore U8 (EField "tail") E_tailv) last)).
 
 Lemma fill_exec : forall fuel last m l fs ps fr efp f cells tl,
-  eval (St m l fs ps fr) efp = Ok (VPtr "fp" 0) ->
+  eval (St m l fs ps fr) efp = Ok (VPtr fpn 0) ->
   mget m "HBUF_SZ" = Some (cell1 U32 (Z.of_nat hbuf)) ->
   mget m "buf.b" = Some {| o_ty := U8; o_cells := cells |} -> List.length cells = (64 * hbuf)%nat ->
   mget m "buf.tail" = Some (cell1 U8 tl) ->
-  lget fs "fp" = Some f ->
+  lget fs fpn = Some f ->
   let got := firstn (64 * hbuf) (skipn (cf_pos f) (cf_data f)) in
   let k := Z.of_nat (List.length got) in
   exists eof,
@@ -670,18 +738,18 @@ Lemma fill_exec : forall fuel last m l fs ps fr efp f cells tl,
   exec P vt (S fuel) last
     (St (mset (mset m "buf.b" {| o_ty := U8; o_cells := got ++ skipn (List.length got) cells |}) "buf.tail" (cell1 U8 (k mod 64)))
         (lset (lset l "$t1" (VInt k)) "sum" (VInt k))
-        (lset fs "fp" {| cf_data := cf_data f; cf_pos := cf_pos f + List.length got; cf_eof := eof |}) ps fr).
+        (lset fs fpn {| cf_data := cf_data f; cf_pos := cf_pos f + List.length got; cf_eof := eof |}) ps fr).
 Proof.
   intros fuel last m l fs ps fr efp f cells tl Hefp Hhb Hb Hcells Htl Hf got k.
   assert (Hgl : (List.length got <= 64 * hbuf)%nat) by (unfold got; apply firstn_le_length).
-  destruct (fread_u8 (St m l fs ps fr) "buf.b" 0 (Z.of_nat (64 * hbuf)) "fp" 0 f {| o_ty := U8; o_cells := cells |}
+  destruct (fread_u8 (St m l fs ps fr) "buf.b" 0 (Z.of_nat (64 * hbuf)) fpn 0 f {| o_ty := U8; o_cells := cells |}
               Hf Hb eq_refl ltac:(lia) ltac:(lia)) as [eof Hfr].
   { rewrite Nat2Z.id. fold got. cbn [o_cells]. lia. }
   rewrite Nat2Z.id in Hfr. fold got in Hfr. cbn [o_cells] in Hfr.
   exists eof. unfold S_fill.
   rewrite exec_seq, exec_prim.
   assert (Hargs : eval_list (St m l fs ps fr) [EField "b"; ECast U64 (EConst 1); E_size; efp] =
-                  Ok [VPtr "buf.b" 0; VInt 1; VInt (Z.of_nat (64 * hbuf)); VPtr "fp" 0]).
+                  Ok [VPtr "buf.b" 0; VInt 1; VInt (Z.of_nat (64 * hbuf)); VPtr fpn 0]).
   { cbn [eval_list]. rewrite (eval_size (St m l fs ps fr) Hhb), Hefp. reflexivity. }
   rewrite Hargs. cbn [bind]. rewrite Hfr. cbn [bind set_ret].
   change (Z.to_nat 0) with 0%nat.
@@ -763,9 +831,9 @@ Qed.
 
 (* the stream after a refill *)
 Lemma fb_io_fill : forall extra rest fs ps f eof,
-  lget ps "buf.fp" = Some (VPtr "fp" 0) -> skipn (cf_pos f) (cf_data f) = map Z.of_N rest ->
+  lget ps "buf.fp" = Some (VPtr fpn 0) -> skipn (cf_pos f) (cf_data f) = map Z.of_N rest ->
   let got := firstn (64 * hbuf) (skipn (cf_pos f) (cf_data f)) in
-  fb_io (fb_fill hbuf extra rest) (lset fs "fp" {| cf_data := cf_data f; cf_pos := cf_pos f + List.length got; cf_eof := eof |}) ps.
+  fb_io fpn (fb_fill hbuf extra rest) (lset fs fpn {| cf_data := cf_data f; cf_pos := cf_pos f + List.length got; cf_eof := eof |}) ps.
 Proof.
   intros extra rest fs ps f eof Hp Hrest got. split; [exact Hp|].
   eexists. split; [apply lget_lset_same|]. cbn [cf_pos cf_data fb_fill fb_rest].
@@ -788,15 +856,15 @@ Definition blk_arg (m : memory) (bv : value) (block : option (list N)) : Prop :=
 Ltac nb := first [discriminate | apply not_eq_sym; eapply not_buf; eassumption | eapply not_buf; eassumption | congruence].
 Ltac mg := repeat (rewrite mget_mset_other by nb); try rewrite mget_mset_same.
 
-Lemma fb_ctor_refines : forall fuel s bv block stream f,
+Lemma fb_ctor_core : forall fuel s bv block stream f,
   (12 <= fuel)%nat -> fb_shape hbuf (mem s) ->
-  lget (files s) "fp" = Some f -> skipn (cf_pos f) (cf_data f) = map Z.of_N stream -> bytesb stream = true ->
+  lget (files s) fpn = Some f -> skipn (cf_pos f) (cf_data f) = map Z.of_N stream -> bytesb stream = true ->
   blk_arg (mem s) bv block ->
-  exists s', call P vt fuel "filebuffer64::filebuffer64/3" "buf." [VPtr "fp" 0; bv] s = Ok (None, s') /\
-    fb_wf hbuf (fb_new hbuf block stream) /\ fb_rep hbuf (fb_new hbuf block stream) s' /\
+  exists s', call P vt fuel "filebuffer64::filebuffer64/3" "buf." [VPtr fpn 0; bv] s = Ok (None, s') /\
+    fb_wf hbuf (fb_new hbuf block stream) /\ fb_rep fpn hbuf (fb_new hbuf block stream) s' /\
     frame (is_prefix "buf.") (mem s) (mem s') /\ shapes (mem s) (mem s') /\
     loc s' = loc s /\ pre s' = pre s /\ fresh s' = fresh s /\
-    (forall k, k <> "fp" -> lget (files s') k = lget (files s) k) /\
+    (forall k, k <> fpn -> lget (files s') k = lget (files s) k) /\
     (forall k, k <> "buf.fp" -> lget (ptrs s') k = lget (ptrs s) k).
 Proof.
   intros fuel s bv block stream f Hfuel Hsh Hf Hrest Hbytes Hblk.
@@ -804,7 +872,7 @@ Proof.
   unfold call. fold P. unfold P at 1. rewrite prog_fb_ctor.
   cbn [f_params f_body Src_hashbuffer.f_filebuffer64_filebuffer64_3 bind_params bind].
   set (m := mem s) in *. set (fs := files s) in *. set (ps := ptrs s). set (fr := fresh s).
-  set (l := [("fp", VPtr "fp" 0); ("block", bv)]).
+  set (l := [("fp", VPtr fpn 0); ("block", bv)]).
   do 12 (destruct fuel as [|fuel]; [lia|]).
   (* has_extra = (block != NULL) *)
   rewrite exec_seq.
@@ -823,7 +891,7 @@ Proof.
   (* memcpy(extra_entry, block, 64) *)
   rewrite exec_seq.
   set (m2 := mset (mset m "buf.has_extra" (cell1 TBool (if block then 1 else 0))) "buf.now" (cell1 U32 0)).
-  set (ps' := lset ps "buf.fp" (VPtr "fp" 0)).
+  set (ps' := lset ps "buf.fp" (VPtr fpn 0)).
   assert (Hcopy : exists ec', List.length ec' = 64%nat /\
             (forall e, option_map (firstn 64) block = Some e -> ec' = map Z.of_N e) /\
             exec P vt (S (S (S (S (S (S (S (S fuel))))))))
@@ -907,6 +975,25 @@ Proof.
     + intros k0 Hk0. cbn [ptrs]. apply lget_lset_other. congruence.
 Qed.
 
+(* the constructor; the block argument may live in any object outside "buf." (static, or a heap object) *)
+Lemma fb_ctor_refines : forall fuel s bv block stream f,
+  (12 <= fuel)%nat -> fb_shape hbuf (mem s) ->
+  lget (files s) fpn = Some f -> skipn (cf_pos f) (cf_data f) = map Z.of_N stream -> bytesb stream = true ->
+  blk_arg (mem s) bv block ->
+  exists s', call P vt fuel "filebuffer64::filebuffer64/3" "buf." [VPtr fpn 0; bv] s = Ok (None, s') /\
+    fb_wf hbuf (fb_new hbuf block stream) /\ fb_rep fpn hbuf (fb_new hbuf block stream) s' /\
+    frame (is_prefix "buf.") (mem s) (mem s') /\ heap_kept s s' /\ shapes (mem s) (mem s') /\
+    loc s' = loc s /\ pre s' = pre s /\ fresh s' = fresh s /\
+    (forall k, k <> fpn -> lget (files s') k = lget (files s) k) /\
+    (forall k, k <> "buf.fp" -> lget (ptrs s') k = lget (ptrs s) k).
+Proof.
+  intros fuel s bv block stream f Hfuel Hsh Hf Hrest Hbytes Hblk.
+  destruct (fb_ctor_core fuel s bv block stream f Hfuel Hsh Hf Hrest Hbytes Hblk)
+    as (s' & Ec & Hwf & Hrep & Hfr & Hshp & Hl & Hp & Hfresh & Hfiles & Hptrs).
+  exists s'. split; [exact Ec|]. split; [exact Hwf|]. split; [exact Hrep|]. split; [exact Hfr|].
+  split; [apply frame_buf_heap, Hfr|]. auto 10.
+Qed.
+
 (* ---- read_buffer64 ---- *)
 Definition E_refillc : expr := EBin TBool Eq (ELoad U32 (EField "now")) (ELoad U32 (EGlobal "HBUF_SZ")).
 Definition E_ls : expr :=
@@ -978,13 +1065,13 @@ Qed.
 
 (* the refill test and the refill *)
 Lemma refill_exec : forall fuel m l fs ps fr b,
-  fb_wf hbuf b -> fb_mem hbuf b m -> fb_io b fs ps -> fb_extra b = None ->
+  fb_wf hbuf b -> fb_mem hbuf b m -> fb_io fpn b fs ps -> fb_extra b = None ->
   exists m' l' fs',
     exec P vt (S (S (S (S (S (S (S fuel))))))) S_refill (St m l fs ps fr) = Ok (Normal, St m' l' fs' ps fr) /\
-    fb_wf hbuf (refill hbuf b) /\ fb_mem hbuf (refill hbuf b) m' /\ fb_io (refill hbuf b) fs' ps /\
+    fb_wf hbuf (refill hbuf b) /\ fb_mem hbuf (refill hbuf b) m' /\ fb_io fpn (refill hbuf b) fs' ps /\
     frame (is_prefix "buf.") m m' /\ shapes m m' /\
     (forall x, x <> "$t1" -> x <> "sum" -> lget l' x = lget l x) /\
-    (forall k, k <> "fp" -> lget fs' k = lget fs k).
+    (forall k, k <> fpn -> lget fs' k = lget fs k).
 Proof.
   intros fuel m l fs ps fr b Hwf Hm Hio Hex.
   destruct Hm as [Hhb (cells & Hb & Hcells & Hbc) Hextra Hhas Htot Hnow Htail].
@@ -1173,18 +1260,18 @@ Proof.
 Qed.
 
 (* read_buffer64(block): copies what the model's fb_read returns into the destination, returns its length *)
-Lemma fb_read_refines : forall fuel s b o off,
-  (16 <= fuel)%nat -> fb_wf hbuf b -> fb_rep hbuf b s ->
+Lemma fb_read_core : forall fuel s b o off,
+  (16 <= fuel)%nat -> fb_wf hbuf b -> fb_rep fpn hbuf b s ->
   is_prefix "buf." o = false -> room (mem s) o off 64 ->
   exists s',
     call P vt fuel "filebuffer64::read_buffer64/2" "buf." [VPtr o off] s =
       Ok (Some (VInt (Z.of_nat (List.length (fst (fb_read hbuf b))))), s') /\
-    fb_wf hbuf (snd (fb_read hbuf b)) /\ fb_rep hbuf (snd (fb_read hbuf b)) s' /\
+    fb_wf hbuf (snd (fb_read hbuf b)) /\ fb_rep fpn hbuf (snd (fb_read hbuf b)) s' /\
     bytes_at (mem s') o off (fst (fb_read hbuf b)) /\ bytesb (fst (fb_read hbuf b)) = true /\
     (List.length (fst (fb_read hbuf b)) <= 64)%nat /\
     frame (fb_owned o) (mem s) (mem s') /\ shapes (mem s) (mem s') /\
     loc s' = loc s /\ pre s' = pre s /\ fresh s' = fresh s /\ ptrs s' = ptrs s /\
-    (forall k, k <> "fp" -> lget (files s') k = lget (files s) k).
+    (forall k, k <> fpn -> lget (files s') k = lget (files s) k).
 Proof.
   intros fuel s b o off Hfuel Hwf [Hm Hio] Ho Hold.
   unfold call. fold P. unfold P at 1. rewrite prog_fb_read.
@@ -1273,6 +1360,25 @@ Proof.
     split; [apply (shapes_trans m m1 m2); assumption|].
     repeat split; try reflexivity. exact Hfs1.
 Qed.
+Lemma fb_read_refines : forall fuel s b o off,
+  (16 <= fuel)%nat -> fb_wf hbuf b -> fb_rep fpn hbuf b s ->
+  is_prefix "buf." o = false -> room (mem s) o off 64 ->
+  exists s',
+    call P vt fuel "filebuffer64::read_buffer64/2" "buf." [VPtr o off] s =
+      Ok (Some (VInt (Z.of_nat (List.length (fst (fb_read hbuf b))))), s') /\
+    fb_wf hbuf (snd (fb_read hbuf b)) /\ fb_rep fpn hbuf (snd (fb_read hbuf b)) s' /\
+    bytes_at (mem s') o off (fst (fb_read hbuf b)) /\ bytesb (fst (fb_read hbuf b)) = true /\
+    (List.length (fst (fb_read hbuf b)) <= 64)%nat /\
+    frame (fb_owned o) (mem s) (mem s') /\ heap_kept_but o s s' /\ shapes (mem s) (mem s') /\
+    loc s' = loc s /\ pre s' = pre s /\ fresh s' = fresh s /\ ptrs s' = ptrs s /\
+    (forall k, k <> fpn -> lget (files s') k = lget (files s) k).
+Proof.
+  intros fuel s b o off Hfuel Hwf Hrep Ho Hroom.
+  destruct (fb_read_core fuel s b o off Hfuel Hwf Hrep Ho Hroom)
+    as (s' & Ec & Hwf' & Hrep' & Hby & Hbb & Hlen & Hfr & Hshp & Hrest).
+  exists s'. split; [exact Ec|]. split; [exact Hwf'|]. split; [exact Hrep'|]. split; [exact Hby|]. split; [exact Hbb|].
+  split; [exact Hlen|]. split; [exact Hfr|]. split; [apply frame_fb_heap, Hfr|]. split; [exact Hshp|exact Hrest].
+Qed.
 End FileBuffer.
 
 (* ------------------------------------------------------------------------------------ *)
@@ -1302,6 +1408,7 @@ Variable globs : memory.
 Variable vt : list (string * string).
 Variable F : nat.
 Hypothesis H : class_spec cls a objs globs vt F.
+Variable fpn : string.                      (* name of the stream the buffer reads *)
 Variable hbuf : nat.
 Hypothesis Hh1 : (1 <= hbuf)%nat.
 Hypothesis Hh2 : Z.of_nat (64 * hbuf) < 2 ^ 32.
@@ -1344,14 +1451,15 @@ Definition B_file : stmt :=
 (* what one iteration / the loop preserves *)
 Definition file_step (s s' : state) : Prop :=
   pre s' = pre s /\ (forall x, x <> "$t1" -> x <> "sum" -> lget (loc s') x = lget (loc s) x) /\
-  frame file_owned (mem s) (mem s') /\ ptrs s' = ptrs s /\ (fresh s <= fresh s')%nat /\
-  (forall k, k <> "fp" -> lget (files s') k = lget (files s) k).
+  frame file_owned (mem s) (mem s') /\ heap_kept s s' /\ ptrs s' = ptrs s /\ (fresh s <= fresh s')%nat /\
+  (forall k, k <> fpn -> lget (files s') k = lget (files s) k).
 
 Lemma file_step_trans : forall s1 s2 s3, file_step s1 s2 -> file_step s2 s3 -> file_step s1 s3.
 Proof.
-  intros s1 s2 s3 (A1 & A2 & A3 & A4 & A5 & A6) (B1 & B2 & B3 & B4 & B5 & B6).
+  intros s1 s2 s3 (A1 & A2 & A3 & Ah & A4 & A5 & A6) (B1 & B2 & B3 & Bh & B4 & B5 & B6).
   split; [congruence|]. split; [intros x Hx1 Hx2; rewrite B2, A2 by assumption; reflexivity|].
-  split; [eapply frame_trans; eassumption|]. split; [congruence|]. split; [lia|].
+  split; [eapply frame_trans; eassumption|]. split; [eapply heap_kept_trans; eassumption|].
+  split; [congruence|]. split; [lia|].
   intros k Hk. rewrite B6, A6 by assumption. reflexivity.
 Qed.
 
@@ -1365,21 +1473,31 @@ Proof.
   intros m m' Hf k Hk. apply Hf. unfold file_owned in Hk. apply orb_false_iff in Hk. destruct Hk as [Hk Hk2].
   apply orb_false_iff in Hk. destruct Hk as [_ Hk1]. unfold fb_owned. rewrite Hk1, Hk2. reflexivity.
 Qed.
+Lemma file_owned_hash_owned : forall k, file_owned k = false -> hash_owned k = false.
+Proof. intros k Hk. unfold file_owned in Hk. apply orb_false_iff in Hk. destruct Hk as [Hk _]. apply orb_false_iff in Hk. apply Hk. Qed.
+
+(* a hasher method call as a step *)
+Lemma file_step_upd : forall s m' fr', kept (fresh s) (mem s) m' -> (fresh s <= fr')%nat -> file_step s (upd s m' fr').
+Proof.
+  intros s m' fr' Hk Hfr. unfold file_step, upd. cbn [pre loc mem ptrs fresh files].
+  split; [reflexivity|]. split; [reflexivity|]. split; [apply file_owned_hash, (kept_frame _ _ _ Hk)|].
+  split; [intros n Hn; cbn [mem]; apply (kept_heap _ _ _ _ Hk Hn)|]. auto.
+Qed.
 
 Lemma file_iter : forall fuel s st b,
   (F + 20 <= fuel)%nat -> pre s = "" -> lget (loc s) "buffer" = Some (VPtr "buf." 0) ->
-  fb_wf hbuf b -> fb_rep hbuf b s -> hok st (mem s) ->
+  fb_wf hbuf b -> fb_rep fpn hbuf b s -> hok st (mem s) ->
   exists s',
     exec P vt fuel B_file s =
       Ok ((if (List.length (fst (fb_read hbuf b)) =? 64)%nat then Normal else Broke), s') /\
-    file_step s s' /\ fb_wf hbuf (snd (fb_read hbuf b)) /\ fb_rep hbuf (snd (fb_read hbuf b)) s' /\
+    file_step s s' /\ fb_wf hbuf (snd (fb_read hbuf b)) /\ fb_rep fpn hbuf (snd (fb_read hbuf b)) s' /\
     hok (if (List.length (fst (fb_read hbuf b)) =? 64)%nat then getHash_block a st (fst (fb_read hbuf b))
          else getHash_final a st (fst (fb_read hbuf b))) (mem s').
 Proof.
   intros fuel s st b Hfuel Hpre Hbuf Hwf Hrep Hok. unfold P.
   do 6 (destruct fuel as [|fuel]; [lia|]).
-  destruct (fb_read_refines vt hbuf Hh1 Hh2 (S (S (S (S fuel)))) s b "hashblock" 0 ltac:(lia) Hwf Hrep eq_refl (hok_room _ _ Hok))
-    as (s1 & Ecall & Hwf1 & Hrep1 & Hby1 & Hbb1 & Hlen1 & Hfr1 & Hsh1 & Hloc1 & Hpre1 & Hfresh1 & Hptrs1 & Hfiles1).
+  destruct (fb_read_refines vt fpn hbuf Hh1 Hh2 (S (S (S (S fuel)))) s b "hashblock" 0 ltac:(lia) Hwf Hrep eq_refl (hok_room _ _ Hok))
+    as (s1 & Ecall & Hwf1 & Hrep1 & Hby1 & Hbb1 & Hlen1 & Hfr1 & Hhk1 & Hsh1 & Hloc1 & Hpre1 & Hfresh1 & Hptrs1 & Hfiles1).
   set (blk := fst (fb_read hbuf b)) in *. set (b' := snd (fb_read hbuf b)) in *.
   set (n := Z.of_nat (List.length blk)) in *.
   assert (Hok1 : hok st (mem s1)) by (eapply hok_read; eassumption).
@@ -1404,13 +1522,17 @@ Proof.
   rewrite Ev. cbn [bind]. fold s3. clear Ev.
   assert (Hpre3 : pre s3 = "") by (unfold s3, s2, with_loc; cbn [pre]; congruence).
   assert (Hmem3 : mem s3 = mem s1) by reflexivity.
+  assert (Hfresh3 : fresh s3 = fresh s) by exact Hfresh1.
   assert (Hsum3 : lget (loc s3) "sum" = Some (VInt n)) by (unfold s3, with_loc; cbn [loc]; apply lget_lset_same).
   assert (Hstep13 : file_step s s3).
   { unfold file_step, s3, s2, with_loc. cbn [pre loc mem ptrs fresh files].
     split; [congruence|]. split; [intros x Hx1 Hx2; rewrite !lget_lset_other by congruence; congruence|].
-    split; [apply file_owned_fb, Hfr1|]. split; [exact Hptrs1|]. split; [lia|exact Hfiles1]. }
+    split; [apply file_owned_fb, Hfr1|].
+    split; [apply (heap_kept_but_kept "hashblock" s s1); [intro k; apply not_owned_not_heap; reflexivity|exact Hhk1]|].
+    split; [exact Hptrs1|]. split; [lia|exact Hfiles1]. }
   assert (Ehb : eval s3 (EField "hashblock") = Ok (VPtr "hashblock" 0)) by (cbn [eval]; rewrite Hpre3; reflexivity).
-  assert (Hrep3 : fb_rep hbuf b' s3) by exact Hrep1.
+  assert (Hrep3 : fb_rep fpn hbuf b' s3) by exact Hrep1.
+  assert (Hpass : passable s3 "hashblock") by (left; reflexivity).
   rewrite exec_seq, exec_if.
   assert (Ec : eval s3 (EBin TBool Ne (EVar "sum") (ECast U64 (EConst 64))) = Ok (VInt (if n =? 64 then 0 else 1))).
   { cbn [eval bind]. rewrite Hsum3. reflexivity. }
@@ -1423,9 +1545,8 @@ Proof.
       as (m' & fr' & Eb & Hok' & Hf' & Hfr'); try assumption; try reflexivity; try (rewrite Hmem3; assumption).
     rewrite Eb. eexists. split; [reflexivity|].
     split; [|split; [exact Hwf1|split; [|exact Hok']]].
-    + eapply file_step_trans; [exact Hstep13|]. unfold file_step, upd. cbn [pre loc mem ptrs fresh files].
-      repeat split; try reflexivity; [apply file_owned_hash, Hf'|exact Hfr'].
-    + destruct Hrep3 as [Hm3 Hio3]. split; [eapply fb_mem_frame; [exact Hm3|exact Hf']|exact Hio3].
+    + eapply file_step_trans; [exact Hstep13|]. apply file_step_upd; assumption.
+    + destruct Hrep3 as [Hm3 Hio3]. split; [eapply fb_mem_frame; [exact Hm3|exact (kept_frame _ _ _ Hf')]|exact Hio3].
   - (* the final partial block *)
     assert (En : n <> 64) by (unfold n; lia).
     destruct (Z.eqb_spec n 64) as [|_]; [contradiction|].
@@ -1438,19 +1559,18 @@ Proof.
     change (exec hash_prog vt (S fuel) SBreak (upd s3 m' fr')) with (Ok (Broke, upd s3 m' fr') : res (outcome * state)).
     cbn [bind]. eexists. split; [reflexivity|].
     split; [|split; [exact Hwf1|split; [|exact Hok']]].
-    + eapply file_step_trans; [exact Hstep13|]. unfold file_step, upd. cbn [pre loc mem ptrs fresh files].
-      repeat split; try reflexivity; [apply file_owned_hash, Hf'|exact Hfr'].
-    + destruct Hrep3 as [Hm3 Hio3]. split; [eapply fb_mem_frame; [exact Hm3|exact Hf']|exact Hio3].
+    + eapply file_step_trans; [exact Hstep13|]. apply file_step_upd; assumption.
+    + destruct Hrep3 as [Hm3 Hio3]. split; [eapply fb_mem_frame; [exact Hm3|exact (kept_frame _ _ _ Hf')]|exact Hio3].
 Qed.
 
 Lemma file_step_refl : forall s, file_step s s.
-Proof. intro s. unfold file_step. repeat split; try reflexivity; try apply frame_refl; try lia. Qed.
+Proof. intro s. unfold file_step. repeat split; try reflexivity; try apply frame_refl; try apply heap_kept_refl; try lia. Qed.
 
 (* the while(true) loop follows the model's file_loop; n is the model's fuel *)
 Lemma file_loop_refines : forall n st b s st',
   file_loop hbuf a n st b = Some st' ->
   pre s = "" -> lget (loc s) "buffer" = Some (VPtr "buf." 0) ->
-  fb_wf hbuf b -> fb_rep hbuf b s -> hok st (mem s) ->
+  fb_wf hbuf b -> fb_rep fpn hbuf b s -> hok st (mem s) ->
   exists s', exec P vt (S (F + 20 + n)) (SLoop (EConst 1) B_file SSkip) s = Ok (Normal, s') /\
              file_step s s' /\ hok st' (mem s').
 Proof.
@@ -1462,32 +1582,32 @@ Proof.
   rewrite E1. cbn [bind].
   destruct (Nat.eqb_spec (List.length blk) 64) as [E64|E64].
   - replace (F + 20 + S n)%nat with (S (F + 20 + n)) by lia. rewrite exec_skip. cbn [bind].
-    destruct Hstep1 as (A1 & A2 & A3 & A4 & A5 & A6).
+    pose proof Hstep1 as (A1 & A2 & _).
     destruct (IH _ b' s1 st' Hfl) as (s2 & E2 & Hstep2 & Hok2); try assumption.
     + congruence.
     + rewrite A2 by discriminate. exact Hbuf.
     + exists s2. split; [exact E2|]. split; [|exact Hok2].
-      eapply file_step_trans; [|exact Hstep2]. unfold file_step. auto 10.
+      eapply file_step_trans; [exact Hstep1|exact Hstep2].
   - apply some_inj in Hfl. subst st'. exists s1. auto.
 Qed.
 
-(* Hashmaster::getFileHash(buffer, hashres): n is the fuel of the model's file_loop *)
+(* Hashmaster::getFileHash(buffer, hashres): n is the fuel of the model's file_loop;
+   the output object may be a static object or a heap object older than the call *)
 Lemma getFileHash_refines : forall s st0 fuel b n st' oo ooff old,
   (F + n + 23 <= fuel)%nat -> pre s = "" -> hok st0 (mem s) ->
-  fb_wf hbuf b -> fb_rep hbuf b s ->
+  fb_wf hbuf b -> fb_rep fpn hbuf b s ->
   file_loop hbuf a n (reset a) b = Some st' ->
-  file_owned oo = false -> bytes_at (mem s) oo ooff old -> List.length old = ha_hlen a ->
+  (file_owned oo = false \/ old_heap s oo) -> bytes_at (mem s) oo ooff old -> List.length old = ha_hlen a ->
   exists s',
     call P vt fuel "Hashmaster::getFileHash/3" "" [VPtr "buf." 0; VPtr oo ooff] s = Ok (None, s') /\
     hok st' (mem s') /\ bytes_at (mem s') oo ooff (ha_out a (hs_h st')) /\
     (forall k, file_owned k = false -> k <> oo -> mget (mem s') k = mget (mem s) k) /\
+    heap_kept_but oo s s' /\
     out_kept (mem s) (mem s') oo ooff (ha_hlen a) /\
     loc s' = loc s /\ pre s' = pre s /\ ptrs s' = ptrs s /\ (fresh s <= fresh s')%nat /\
-    (forall k, k <> "fp" -> lget (files s') k = lget (files s) k).
+    (forall k, k <> fpn -> lget (files s') k = lget (files s) k).
 Proof.
   intros s st0 fuel b n st' oo ooff old Hfuel Hpre Hok0 Hwf Hrep Hfl Hoo Hout Hold.
-  assert (Hoo' : hash_owned oo = false).
-  { unfold file_owned in Hoo. apply orb_false_iff in Hoo. destruct Hoo as [Hoo _]. apply orb_false_iff in Hoo. apply Hoo. }
   unfold call. fold P. unfold P at 1. rewrite prog_getFileHash.
   cbn [f_params f_body Src_hashmaster.f_Hashmaster_getFileHash_3 bind_params bind].
   set (s0 := {| mem := mem s; loc := [("buffer", VPtr "buf." 0); ("hashres", VPtr oo ooff)];
@@ -1497,26 +1617,33 @@ Proof.
   unfold P.
   destruct (vcall_reset cls a objs globs vt F H (S fuel) s0 st0 ltac:(lia) eq_refl Hok0) as (m1 & fr1 & E1 & Hok1 & Hf1 & Hfr1).
   rewrite exec_seq, E1. cbn [bind]. clear E1.
+  cbn [fresh mem s0] in Hf1, Hfr1.
   (* the loop *)
   rewrite exec_seq.
   destruct (file_loop_refines n (reset a) b (upd s0 m1 fr1) st' Hfl eq_refl eq_refl Hwf) as (s2 & E2 & Hstep2 & Hok2).
-  { destruct Hrep as [Hm Hio]. split; [eapply fb_mem_frame; [exact Hm|exact Hf1]|exact Hio]. }
+  { destruct Hrep as [Hm Hio]. split; [eapply fb_mem_frame; [exact Hm|exact (kept_frame _ _ _ Hf1)]|exact Hio]. }
   { exact Hok1. }
   change (exec hash_prog vt (S fuel) _ (upd s0 m1 fr1)) with (exec hash_prog vt (S fuel) (SLoop (EConst 1) B_file SSkip) (upd s0 m1 fr1)).
   unfold P in E2. rewrite (exec_mono _ _ _ _ _ _ E2 (S fuel) ltac:(lia)). cbn [bind]. clear E2.
-  destruct Hstep2 as (A1 & A2 & A3 & A4 & A5 & A6). cbn [upd pre loc mem ptrs fresh files s0] in A1, A2, A3, A4, A5, A6.
+  destruct Hstep2 as (A1 & A2 & A3 & Ah & A4 & A5 & A6). cbn [upd pre loc mem ptrs fresh files s0] in A1, A2, A3, A4, A5, A6.
+  (* what is unchanged so far *)
+  assert (Hsame : forall k, file_owned k = false \/ old_heap s k -> mget (mem s2) k = mget (mem s) k).
+  { intros k [Hk|(i & Hi & ->)].
+    - rewrite (A3 k Hk). apply Hf1. left. apply file_owned_hash_owned, Hk.
+    - rewrite (Ah i); [|cbn [fresh upd]; lia]. cbn [mem upd]. apply (kept_heap _ _ _ _ Hf1 Hi). }
   (* getres *)
-  assert (Hf02 : frame file_owned (mem s) (mem s2)) by (eapply frame_trans; [apply file_owned_hash, Hf1|exact A3]).
   destruct (vcall_getres cls a objs globs vt F H fuel s2 st' (EVar "hashres") oo ooff old ltac:(lia) A1 Hok2)
     as (m3 & fr3 & E3 & Hby3 & Hok3 & Hoth3 & Hkept3 & Hfr3); try assumption.
   { cbn [eval]. rewrite A2 by discriminate. reflexivity. }
-  { apply (bytes_at_frame file_owned (mem s)); assumption. }
+  { destruct Hoo as [Hk|(i & Hi & ->)]; [left; apply file_owned_hash_owned, Hk|right; exists i; split; [lia|reflexivity]]. }
+  { destruct Hout as (ob & Hget & Hrest). exists ob. split; [|exact Hrest]. rewrite (Hsame oo Hoo). exact Hget. }
   rewrite E3. cbn [bind upd mem loc pre files ptrs fresh].
-  eexists. split; [reflexivity|]. cbn [mem loc pre files ptrs fresh].
-  split; [exact Hok3|]. split; [exact Hby3|]. split; [|split].
-  - intros k Hk Hne. rewrite (Hoth3 k Hne). apply Hf02, Hk.
-  - intros ob ob' Hg Hg'. apply Hkept3; [|exact Hg']. rewrite (Hf02 oo Hoo). exact Hg.
+  eexists. split; [reflexivity|]. unfold heap_kept_but. cbn [mem loc pre files ptrs fresh].
+  split; [exact Hok3|]. split; [exact Hby3|]. split; [|split; [|split]].
+  - intros k Hk Hne. rewrite (Hoth3 k Hne). apply Hsame. left. exact Hk.
+  - intros i Hi Hne. rewrite (Hoth3 _ Hne). apply Hsame. right. exists i. auto.
+  - intros ob ob' Hg Hg'. apply Hkept3; [|exact Hg']. rewrite (Hsame oo Hoo). exact Hg.
   - repeat split; try reflexivity; try assumption.
-    unfold s0 in Hfr1. cbn [fresh] in Hfr1. clear - Hfr1 A5 Hfr3. lia.
+    clear - Hfr1 A5 Hfr3. lia.
 Qed.
 End FileDriver.
